@@ -358,7 +358,7 @@ Proof. apply C12_executed_fit_compose_id; [discriminate | lia | | reflexivity | 
   - change (nthmode ex_modes 2) with 2. lia. Qed.
 
 (* non-vacuity of the "deepen" group on the same concrete instance: the cube and the matrix of the three modes, the
-   refusals (index 0, empty list, rho without theta) and an accepted lone theta *)
+   refusals (index 0, empty list, rho without theta, wrong opd size) *)
 Example C12_entry_points_nonvacuous :
   match zernike_basis_vec ex_is0 ex_zpoly ex_mask ex_modes true None with
   | Ok B => (nr B, nc B) = (3, 4) /\ map (fun q : Qc => this q) (tabulate B) =
@@ -372,8 +372,6 @@ Example C12_entry_points_nonvacuous :
   zernike_fit_a ex_is0 ex_zpoly q_solve ex_opd ex_mask [0; 2] true CNone = Err ValueError /\
   zernike_remove_a ex_is0 ex_zpoly q_solve ex_opd ex_mask ex_modes CRhoOnly = Err ValueError /\
   zernike_fit_a ex_is0 ex_zpoly q_solve (@of_list QS 1 3 [Q2Qc 1; Q2Qc 2; Q2Qc 3]) ex_mask ex_modes true CNone = Err ValueError /\
-  match zernike_fit_a ex_is0 ex_zpoly q_solve ex_opd ex_mask ex_modes true CThetaOnly with
-  | Ok c => length c = 3%nat | Err _ => False end /\
   (exists y, zernike_compose_a ex_is0 ex_zpoly ex_mask [] true CRhoOnly = Ok y).
 Proof. repeat match goal with |- _ /\ _ => split end; try (vm_compute; reflexivity).
   - vm_compute. split; reflexivity.
